@@ -11,12 +11,14 @@ import shutil
 import tempfile
 
 from vh import core, gen, scenario as S, taskcheck as T
+from vh.props import c02
 
 PROP = 'C17'
 RULE = ("scenario = 1..4 files (some empty, some fully skipped by a file-level since "
         "constraint) x 1..4 simple/sequence searches registered on subsets (duplicates "
         "included); single-file in-process and multi-file multi-process; 40% of the cases run "
-        "the same searcher twice; non-trivial = results > 0, lines_searched > 0 and (>= 2 "
+        "the same searcher twice; a few multi-process runs with the results queue patched down "
+        "to 2..4 slots so that workers cross put_result's queue-full retry path; non-trivial = results > 0, lines_searched > 0 and (>= 2 "
         "files or a second run); distinct by scenario hash")
 
 
@@ -55,8 +57,19 @@ def eval_cases(rng, count, extra):
     todo = fixed if fixed is not None else [None] * count
     out = []
     for item in todo:
-        scn = item if item is not None else gen_scenario(rng, extra.get('tier', 'quick'),
-                                                         extra.get('multi', False))
+        if item is None and extra.get('deepq'):
+            scn = c02.gen_deepq_scenario(rng, extra.get('tier', 'quick'))
+        else:
+            scn = item if item is not None else gen_scenario(rng, extra.get('tier', 'quick'),
+                                                             extra.get('multi', False))
+        if scn.get('_sleep_scale'):
+            # a run whose workers meet a FULL results queue in the middle of a flush
+            # (put_result's retry / back-off path), driven by C02's instrumented runner
+            obs = c02.run_mp(scn)
+            qfull = obs.get('qfull', 0)
+            obs = {k: v for k, v in obs.items() if k not in ('events', 'consts', 'qfull')}
+            out.append({'scn': scn, 'impl': {'first': obs, 'second': None}, 'qfull': qfull})
+            continue
         out.append({'scn': scn, 'impl': run_impl(scn)})
     return out
 
@@ -100,6 +113,9 @@ def judge(rep, item, mrun, mrun2=None):
     rep.count('multi_file' if len(scn['files']) > 1 else 'single_file')
     if second is not None:
         rep.count('second_runs')
+    if scn.get('_sleep_scale'):
+        rep.count('queue_full_runs')
+        rep.count('queue_full_events', item.get('qfull', 0))
     for which, obs in (('first', first), ('second', second)):
         if obs is None:
             continue
@@ -142,6 +158,9 @@ def run(tier, seed, replay_case=None):
         items += core.run_sharded(eval_cases, seed, n_single, {'tier': tier})
         items += core.run_sharded(eval_cases, seed + 1, n_multi, {'tier': tier, 'multi': True},
                                   shards=min(core.NCPU, n_multi))
+        ndq = 4 if tier == 'quick' else 40
+        items += core.run_sharded(eval_cases, seed + 2, ndq, {'tier': tier, 'deepq': True},
+                                  shards=min(4, ndq), workers=4)
     drv = core.Driver()
     mruns = T.run_models([it['scn'] for it in items], drv)
     late = [i for i, it in enumerate(items) if it['scn'].get('_late_regs') and it['scn'].get('_twice')]
